@@ -277,17 +277,26 @@ struct BitsDriver : DriverBase<BitsDriver<B, W, IsBitset>> {
         ctx.log.kv("val", val);
         ctx.log.kv("b", b);
 
+        // every mutator returns *this by reference (calls can be chained): the address of what comes back is compared
+        bool chained = true;
+        auto self    = [&](auto&& r) { chained = chained && static_cast<void const*>(&r) == static_cast<void const*>(&v); };
+        auto chain_checked = [&] {
+            if (!chained) {
+                ctx.violation("C17", "diff:returned-reference", "a modifier did not return a reference to the bitset itself (chained calls would act on a copy)");
+            }
+        };
         if (op == "set_all" || op == "reset_all" || op == "flip_all") {
             bool ok = call(a, false, false, [&] {
                 if (op == "set_all") {
-                    v.set();
+                    self(v.set());
                 } else if (op == "reset_all") {
-                    v.reset();
+                    self(v.reset());
                 } else {
-                    v.flip();
+                    self(v.flip());
                 }
             });
             if (ok) {
+                chain_checked();
                 if (op == "set_all") {
                     m.set();
                 } else if (op == "reset_all") {
@@ -305,30 +314,31 @@ struct BitsDriver : DriverBase<BitsDriver<B, W, IsBitset>> {
                 if constexpr (IsBitset) {
                     if (op == "set_bit") {
                         if (how == 0 || !val) {
-                            v.set(pos, val);
+                            self(v.set(pos, val));
                         } else {
-                            v.set(pos); // defaulted value
+                            self(v.set(pos)); // defaulted value
                         }
                     } else if (op == "reset_bit") {
-                        v.reset(pos);
+                        self(v.reset(pos));
                     } else {
-                        v.flip(pos);
+                        self(v.flip(pos));
                     }
                 } else {
                     if (op == "set_bit") {
                         if (how == 0 || !val) {
-                            v.unchecked_set(pos, val);
+                            self(v.unchecked_set(pos, val));
                         } else {
-                            v.unchecked_set(pos);
+                            self(v.unchecked_set(pos));
                         }
                     } else if (op == "reset_bit") {
-                        v.unchecked_reset(pos);
+                        self(v.unchecked_reset(pos));
                     } else {
-                        v.unchecked_flip(pos);
+                        self(v.unchecked_flip(pos));
                     }
                 }
             });
             if (ok) {
+                chain_checked();
                 if (op == "set_bit") {
                     m.set(pos, val);
                 } else if (op == "reset_bit") {
@@ -463,14 +473,15 @@ struct BitsDriver : DriverBase<BitsDriver<B, W, IsBitset>> {
             }
             bool ok = call(a, false, false, [&] {
                 if (op == "and_assign") {
-                    v &= *obj[b];
+                    self(v &= *obj[b]);
                 } else if (op == "or_assign") {
-                    v |= *obj[b];
+                    self(v |= *obj[b]);
                 } else {
-                    v ^= *obj[b];
+                    self(v ^= *obj[b]);
                 }
             });
             if (ok) {
+                chain_checked();
                 M const other = model[b];
                 if (op == "and_assign") {
                     m &= other;
@@ -561,7 +572,15 @@ struct BitsDriver : DriverBase<BitsDriver<B, W, IsBitset>> {
         }
         ctx.log.kv("folded", folded);
         bool bad = false;
-        if (form == 3) {
+        bool const posBeyond = form == 3 && st.flt != 0 && misuse && st.k[2] % 10 >= 5;
+        if (posBeyond) {
+            // start position beyond the view, with a count that would fit: the position itself violates the precondition
+            spos = len + 1 + static_cast<size_t>(st.k[1] % 3);
+            sn   = 1 + static_cast<size_t>(st.k[0] % (W < 3 ? W : 3));
+            bad  = true;
+            ctx.log.s(" pos-beyond");
+        }
+        if (form == 3 && !posBeyond) {
             size_t const used = std::min(sn, len - spos);
             if (used > W) {
                 if (st.flt == 0 || !misuse) {
